@@ -439,9 +439,6 @@ func (c *Ctx) concVal() []byte {
 
 func concOpts(c *Ctx, managed bool) sysOpts {
 	o := sysOpts{Managed: managed, Detect: true, NKeep: 1 + c.Rng.Intn(3), MaxLevels: 4, VThreshold: 32, TableSize: 1 << 20, BaseLevelSize: 8 << 10}
-	if c.Rng.Intn(4) != 0 {
-		o.InMemory = true
-	}
 	return o
 }
 
